@@ -7,7 +7,7 @@ import itertools
 
 import numpy as np
 
-from harness import curves, monitor, numeric, par, simpl
+from harness import curves, growth, monitor, numeric, par, simpl
 
 SIMPLIFIERS = ["rdp", "grdp", "rdp_fixed", "mp_grdp", "min_point_rdp"]
 DETECTORS = ["curvature", "dfdt", "menger", "lmethod", "kneedle"]
@@ -50,7 +50,8 @@ def _record(item):
         good = len(S) >= 2 and S[0] == 0 and S[-1] == n - 1 and all(S[j] < S[j + 1] for j in range(len(S) - 1))
     for ki, cf in enumerate(cfgs):
         events = [dict(simp_event)]
-        case = {"id": "%s.%d" % (cid, ki), "n": n, "reduced": [0, n - 1], "hred": [0, 0], "horig": _exact_ranks(P[:, 1]), "events": events}
+        case = {"id": "%s.%d" % (cid, ki), "n": n, "reduced": [0, n - 1], "hred": [0, 0], "horig": _exact_ranks(P[:, 1]), "events": events,
+                "order": ["simplify", "detect", "worst", "corner", "cluster", "map"], "detmax": 0}
         meta = {"points": P.tolist(), "cfg": cfg, "which": ki}
         out.append((case, meta))
         if not good:
@@ -60,6 +61,7 @@ def _record(item):
         PR = P[reduced]
         case["reduced"] = S
         case["hred"] = _exact_ranks(PR[:, 1])
+        case["detmax"] = len(S) - 2
 
         def stage(name, fn, args):
             o, val, _ = monitor.call(fn, args, budget=B, wall=60)
@@ -165,7 +167,7 @@ def inputs(ctx):
     return items
 
 
-STATIC = {"id": "static", "n": 10, "reduced": [0, 2, 3, 5, 8, 9], "hred": [5, 4, 3, 2, 1, 0], "horig": [9, 8, 7, 6, 5, 4, 3, 2, 1, 0],
+STATIC = {"id": "static", "order": ["simplify", "detect", "worst", "corner", "cluster", "map"], "detmax": 4, "n": 10, "reduced": [0, 2, 3, 5, 8, 9], "hred": [5, 4, 3, 2, 1, 0], "horig": [9, 8, 7, 6, 5, 4, 3, 2, 1, 0],
           "events": [{"stage": "simplify", "outcome": "returned", "out": [0, 2, 3, 5, 8, 9], "same": []},
                      {"stage": "detect", "outcome": "returned", "out": [1, 2, 3, 4], "same": []},
                      {"stage": "worst", "outcome": "returned", "out": [1, 2, 3, 4], "same": []},
@@ -213,6 +215,7 @@ def run(ctx):
         m = meta[cid]
         ctx.violation(vs[0][0], {"points": m["points"], "cfg": m["cfg"]}, {"verdict": vs[0], "error": m.get("error"), "pass": m["which"]},
                       match="%s:%s:%s" % (vs[0][0], m["cfg"]["detector"], m["cfg"]["mode"]))
+    growth.pipeline_variants(ctx)
     sm = max(cases, key=lambda c: len(c["events"][-1]["out"]) if c["events"][-1]["stage"] == "map" and c["n"] < 80 else -1)
     ctx.sample({"binding": "T", "cfg": meta[sm["id"]]["cfg"], "n": sm["n"], "events": sm["events"]})
 
